@@ -10,6 +10,7 @@ import Swat4.Properties.C01
 import Swat4.Properties.C02
 import Swat4.Properties.C03
 import Swat4.Model.UdpServer
+import Swat4.Model.ReporterReach
 /-!
 # C06 — No inbound bytes can crash a listener or change state unless well-formed
 
@@ -173,22 +174,11 @@ theorem rejected_no_effect (cfg : Cfg) (st : AbsState) (srcIp srcPort : Nat) (b 
         · rfl
         · split <;> rfl
 
-/-- a datagram that gets as far as a use case: a heartbeat (type 03) of at least 5 bytes whose body scans
-to a non-empty field map from which the address derives (`hostport`/`localport` numeric, `hostport` in
-1..65535, source IP acceptable), or a keepalive (type 08) of at least 5 bytes -/
-def reachesUseCase (srcIp : Nat) (payload : Bytes) : Bool :=
-  match payload with
-  | [] => false
-  | t :: _ =>
-    if t.toNat = Facts.reporterMsgHeartbeat then
-      match parseInstanceID payload with
-      | none => false
-      | some (_, rest) =>
-        match parseHeartbeatParams rest with
-        | none => false
-        | some fields => !fields.isEmpty && (parseAddr srcIp fields).isSome
-    else if t.toNat = Facts.reporterMsgKeepalive then (parseInstanceID payload).isSome
-    else false
+/- a datagram that gets as far as a use case (heartbeat of at least 5 bytes whose body scans to a non-empty field map
+from which the address derives, or a keepalive of at least 5 bytes): `Swat4.C06.reachesUseCase` IS
+`Swat4.Heartbeat.reachesUseCase` (`Model/ReporterReach.lean`), the definition the C06 driver's oracle evaluates too
+(`Swat4.Drv.C06.reaches`) -/
+export Swat4.Heartbeat (reachesUseCase)
 
 /-- `WellFormedMutating` — DEFINED FROM THE MODEL (it mentions `dispatch` itself: "the model did not answer
 `err`"), so theorems stated over it are definitional; the independent statement is `mutation_implies_decodable`.
